@@ -182,8 +182,12 @@ impl BlteFile {
                 .iter()
                 .map(|info| u64::from(info.decompressed_size))
                 .sum();
-            // Saturate to usize max to handle potential overflow gracefully
-            return usize::try_from(total).unwrap_or(usize::MAX);
+            // Saturate to usize max to handle potential overflow gracefully. The chunk
+            // table is untrusted and this is only a reservation hint: never reserve
+            // more than the documented decompression cap.
+            return usize::try_from(total)
+                .unwrap_or(usize::MAX)
+                .min(compression::MAX_DECOMPRESSION_SIZE);
         }
 
         // Fall back to chunk-level estimates
